@@ -358,7 +358,10 @@ def r09_d(ctx):
     for fd, loop in _arg_loops(repo):
         first = loop.body[0]
         if not (isinstance(first, ast.Assign) and isinstance(first.targets[0], ast.Name)):
-            raise AnalysisError('%s: spacer variable not found' % fd.qual)
+            # no whitespace token is read at the start of the iteration: that is R09.b's subject, nothing to trace here
+            rr.notes.append('%s: the loop does not start by reading a whitespace token (see R09.b)' % fd.qual)
+            rr.ob(True, {'loop': fd.qual, 'spacer_uses': 0})
+            continue
         var = first.targets[0].id
         uses = [n for n in ast.walk(loop) if isinstance(n, ast.Name) and n.id == var and isinstance(n.ctx, ast.Load)]
         bad = []
